@@ -207,11 +207,21 @@ func transExpr(transT func(FType) FType, transV func(Var) Var, transS func(Stmt)
 }
 
 type SSet struct {
-	Dict dict.Dict[string, bool]
+	Dict  dict.Dict[string, bool]
+	Depth dict.Dict[string, int]
 }
 
 func NewSSet() SSet {
-	return SSet{Dict: dict.New[string, bool]()}
+	return SSet{Dict: dict.New[string, bool](), Depth: dict.New[string, int]()}
+}
+
+func SSetDepth(st SSet, key string) int {
+	d, _ := frt.Destr2(dict.TryFind(st.Depth, key))
+	return d
+}
+
+func SSetSetDepth(st SSet, key string, d int) {
+	dict.Add(st.Depth, key, d)
 }
 
 func SSetHasKey(st SSet, key string) bool {
@@ -262,18 +272,23 @@ func collectTVarFTypeWithSet(visited SSet, recs dict.Dict[string, bool], ft FTyp
 	case FType_FUnion:
 		ut := _v9.Value
 		uname := utName(ut)
-		return frt.IfElse(SSetHasKey(visited, uname), (func() []string {
+		key := uniToKey(ut)
+		depth := SSetDepth(visited, uname)
+		return frt.IfElse((SSetHasKey(visited, key) || (depth > 3)), (func() []string {
 			return slice.New[string]()
 		}), (func() []string {
-			SSetPut(visited, uname)
+			SSetPut(visited, key)
+			SSetSetDepth(visited, uname, (depth + 1))
 			nrecs := dict.New[string, bool]()
-			return frt.Pipe(frt.Pipe(utCases(ut), (func(_r0 []NameTypePair) []FType {
+			res := frt.Pipe(frt.Pipe(utCases(ut), (func(_r0 []NameTypePair) []FType {
 				return slice.Map(func(_v2 NameTypePair) FType {
 					return _v2.Ftype
 				}, _r0)
 			})), (func(_r0 []FType) []string {
 				return slice.Collect((func(_r0 FType) []string { return collectTVarFTypeWithSet(visited, nrecs, _r0) }), _r0)
 			}))
+			SSetSetDepth(visited, uname, depth)
+			return res
 		}))
 	case FType_FFunc:
 		fnt := _v9.Value
@@ -497,15 +512,17 @@ func transTVFTypeWithSet(visited SSet, recs RecTrace, transTV func(TypeVar) FTyp
 	case FType_FUnion:
 		ut := _v17.Value
 		uname := utName(ut)
-		return frt.IfElse(SSetOn(visited, uname), (func() FType {
+		key := uniToKey(ut)
+		depth := SSetDepth(visited, uname)
+		return frt.IfElse((SSetOn(visited, key) || (depth > 3)), (func() FType {
 			return ftp
 		}), (func() FType {
-			key := uniToKey(ut)
 			memo, hit := frt.Destr2(dict.TryFind(recs.DoneU, key))
 			return frt.IfElse(hit, (func() FType {
 				return New_FType_FUnion(memo)
 			}), (func() FType {
-				SSetPut(visited, uname)
+				SSetPut(visited, key)
+				SSetSetDepth(visited, uname, (depth + 1))
 				nrecs := RecTrace{On: dict.New[string, bool](), Done: recs.Done, DoneU: recs.DoneU}
 				inUnion := (func(_r0 FType) FType { return transTVFTypeWithSet(visited, nrecs, transTV, _r0) })
 				cases := utCases(ut)
@@ -524,7 +541,8 @@ func transTVFTypeWithSet(visited SSet, recs RecTrace, transTV func(TypeVar) FTyp
 				nut := UnionType{Name: ut.Name, Targs: ntargs}
 				nui := UnionTypeInfo{Cases: ncases}
 				updateUniInfo(nut, nui)
-				SSetOff(visited, uname)
+				SSetOff(visited, key)
+				SSetSetDepth(visited, uname, depth)
 				dict.Add(recs.DoneU, key, nut)
 				return New_FType_FUnion(nut)
 			}))
